@@ -1,0 +1,33 @@
+//go:build verif
+
+package http
+
+// Contracts for the verification harness under /verif (comment-only file).
+//
+// C19: when a too-large request is split and resent (split_batch), the parts
+// cover the batch exactly once.  begin[k] is the offset of event k in data
+// (begin[n] = end); the ghost cursor sentTo is the offset up to which data has
+// been accepted by the endpoint.  DoTimeout is the environment: it may fail (with
+// any status, 413 included) or succeed on every call.
+
+//@ func (*Plugin).sendSplit
+//@   pure
+//@   ghost sentTo int
+//@   ghostout sentTo
+//@   requires 0 <= left && left <= right && right < len(begin)
+//@   requires nondecreasing(begin) && allrange(begin, 0, len(data) + 1)
+//@   requires sentTo == begin[left]
+//@   ensures result1 == nil ==> sentTo == begin[right]
+//@   ensures result1 != nil ==> begin[left] <= sentTo && sentTo <= begin[right]
+//@   ensures left == right ==> result1 == nil
+//@   callee DoTimeout(method, ct, body, timeout, fn) (code, err)
+//@     requires sameblock(body, data) && off(body) == off(data) + begin[left] && len(body) == begin[right] - begin[left]
+//@     requires sentTo == begin[left]
+//@     pure
+//@     ghostout sentTo
+//@     ensures err == nil ==> sentTo == old(sentTo) + len(body)
+//@     ensures err != nil ==> sentTo == old(sentTo)
+//@   callee WithLabelValues(l)
+//@     pure
+//@   callee Inc()
+//@     pure
